@@ -1,4 +1,5 @@
 #!/bin/bash
+export V=${VERIF:-/verif}; export VERIF=$V
 # mut.sh <patch> <prop>... : apply a patch to a scratch copy of /repo (never to /repo
 # itself), run the given properties' checks against the copy, delete the copy.
 # Prints one line per property: DETECTED / MISSED / UNDECIDED.
@@ -23,9 +24,9 @@ if ! (cd "$scratch/repo" && git apply --whitespace=nowarn "$patch" 2>/dev/null |
 fi
 for prop in "$@"; do
   if [ "$prop" = C20 ]; then
-    out=$(python3 /verif/checker/py/route_rules.py --prop C20 --repo "$scratch/repo" --verif /verif --out "$scratch/ev" 2>&1); rc=$?
+    out=$(python3 $V/checker/py/route_rules.py --prop C20 --repo "$scratch/repo" --verif $V --out "$scratch/ev" 2>&1); rc=$?
   else
-    out=$(/verif/bin/upfcheck -prop "$prop" -repo "$scratch/repo" -verif /verif -out "$scratch/ev" 2>&1); rc=$?
+    out=$($V/bin/upfcheck -prop "$prop" -repo "$scratch/repo" -verif $V -out "$scratch/ev" 2>&1); rc=$?
   fi
   case $rc in
     0) echo "MISSED    $prop  $(basename $(dirname $patch))/$(basename $patch)";;
